@@ -21,15 +21,22 @@ Reading that is formalised (per request, `reqOk`):
                      with the applied endpoint diagnoses.
 and per case (`orderOk`): (O) the answers do not depend on the declaration order.
 
-Classes in which the unchanged code violates this (decidable classifiers = excluded hypotheses of the
-`_partial` theorems = finding ids named by the judge):
-  F13a `crossMatchEarlier` (per request; order-sensitive: a declared URL, looked up as a request, is laxly
-        matched by an EARLIER declared different pattern) / `crossMatch` (order independence; any pair)
+Duplicated declarations (same method, same pattern) are one policy whose remedies and diagnoses are those of
+all of them in the order they are written (`group`); the reported policy URL is the text of one of them.
+
+Classes in which the code still violates this (decidable classifiers = excluded hypotheses of the
+`_partial` theorems = finding ids named by the judge).  F13a and F13e are repaired (fixes/F13a.patch,
+fixes/F13e.patch): no hypothesis about cross-matching or duplicated declarations is left in (S)–(O).
   F13b `wildDisplaced`  a matching `*` pattern is reached with zero segments or past another pattern's path
   F13c `boundaryMix`    host/path boundary: a declared pattern follows the URL across `/`
         (`cfgBoundaryMix`: ... follows another declared URL, for order independence)
   F13d `emptySegment`   the URL has an empty segment (`{p}` accepts it)
-  F13e `dupKeys`        the same (method, pattern) is declared twice (the later one silently replaces the earlier)
+  F13f `starQuirk`      a declared pattern has a `*` that is not its last part (`validateURL` accepts it when it
+                        equals the last part); the trie keeps it cut after the first `*`, without value, and it
+                        replaces the wildcard node of `X/*` when declared later (order dependence)
+  F13g `crossMatch`     ACCEPTANCE depends on the order: `checkForDuplicates` looks the new URL up as a request,
+                        so `x/{id}` then `x/me` with remedies of one type is rejected and the reverse accepted
+                        (judged only: the theorems speak about declaration lists that build)
 -/
 namespace LunarVerif.C13
 open LunarVerif.UrlTree LunarVerif.UrlMatch
@@ -93,7 +100,7 @@ def enabledDiags (e : Endpoint) : List String := (e.diags.filter (·.enabled)).m
 def observe (pt : PTree) (g : Globals) (method : String) (us : List Part) : Answer :=
   let s := select pt method us
   { hasValue := s.hasValue
-    pol := s.policy.map (·.src.url)
+    pol := s.policy.map (·.url)
     rem := (getRemedies pt g method us).1
     diag := (getDiagnoses pt g method us).1
     grem := (getRemedies pt g method us).2
@@ -105,16 +112,13 @@ def observe (pt : PTree) (g : Globals) (method : String) (us : List Part) : Answ
 
 /-! ### excluded classes -/
 
-/-- F13a, order-insensitive form: two declared endpoints with different patterns, one (as the trie keeps
-    it: cut after its first `*`) laxly matching the other's URL. -/
+/-- F13g (acceptance only): two declared endpoints with different patterns, one (as the trie keeps it: cut
+    after its first `*`) laxly matching the other's URL. -/
 def crossMatch (eps : List Endpoint) : Bool :=
   eps.any fun e1 => eps.any fun e2 => e1.parts != e2.parts && matchesLax (trunc e1.parts) e2.parts
 
-/-- F13a, order-sensitive form: a declared URL is matched by an EARLIER declared different pattern. -/
-def crossMatchEarlier : List Endpoint → Bool
-  | [] => false
-  | e :: rest => crossMatchEarlier rest ||
-      rest.any (fun e2 => e.parts != e2.parts && matchesLax e.parts e2.parts)
+/-- F13f: some declared pattern has a `*` before its last part. -/
+def starQuirk (eps : List Endpoint) : Bool := eps.any fun e => !wildLast e.parts
 
 /-- F13c: some declared pattern follows the URL across the host/path boundary. -/
 def boundaryMix (eps : List Endpoint) (u : Url) : Bool := eps.any fun e => !flagsOK e.parts u
@@ -129,20 +133,22 @@ def emptySegment (u : Url) : Bool := !urlNonEmpty u
     runs along `u` through the position of that `*`. -/
 def wildDisplaced (eps : List Endpoint) (u : Url) : Bool := displaced (eps.map (fun e => trunc e.parts)) u
 
-/-- F13e -/
-def dupKeys : List Endpoint → Bool
-  | [] => false
-  | e :: rest => rest.any (fun e2 => e2.method == e.method && e2.parts == e.parts) || dupKeys rest
-
 /-! ### the property, per request -/
 
 def paramsOk (p : Pattern) (u : Url) (params : List (String × String)) : Bool :=
   params.all fun kv => (p.zip u).any fun pu => pu.1.seg == .par kv.1 && pu.2.seg.text == kv.2
 
-/-- (S): the endpoint `e` is the applied one and is entitled to be. -/
-def soundFor (method : String) (u : Url) (a : Answer) (e : Endpoint) : Bool :=
-  a.pol == some e.url && e.method == method && «matches» e.parts u &&
-  a.rem == enabledRemedies e && a.diag == enabledDiags e
+/-- The declarations for one method and pattern, in the order they are written: ONE policy. -/
+def group (eps : List Endpoint) (method : String) (p : Pattern) : List Endpoint :=
+  eps.filter fun x => x.method == method && x.parts == p
+
+/-- (S): `e` is one of the declarations applied, and is entitled to be: declared for this method with a
+    pattern that matches; what is applied is exactly the enabled remedies/diagnoses of its group. -/
+def soundFor (eps : List Endpoint) (method : String) (u : Url) (a : Answer) (e : Endpoint) : Bool :=
+  e.method == method && «matches» e.parts u &&
+  (group eps method e.parts).any (fun x => a.pol == some x.url) &&
+  a.rem == (group eps method e.parts).flatMap enabledRemedies &&
+  a.diag == (group eps method e.parts).flatMap enabledDiags
 
 def mostSpecificFor (eps : List Endpoint) (u : Url) (e : Endpoint) : Bool :=
   eps.all fun e' => !(«matches» e'.parts u) || specLE e'.parts e.parts || passedOver e.parts e'.parts
@@ -155,22 +161,22 @@ def globalsOk (g : Globals) (a : Answer) : Bool :=
 def soundOk (eps : List Endpoint) (method : String) (u : Url) (a : Answer) : Bool :=
   match a.pol with
   | none => a.rem.isEmpty && a.diag.isEmpty
-  | some _ => eps.any (soundFor method u a)
+  | some _ => eps.any (soundFor eps method u a)
 
 def mostSpecificOk (eps : List Endpoint) (method : String) (u : Url) (a : Answer) : Bool :=
   match a.pol with
   | none => true
-  | some _ => eps.any fun e => soundFor method u a e && mostSpecificFor eps u e
+  | some _ => eps.any fun e => soundFor eps method u a e && mostSpecificFor eps u e
 
 def paramsOkA (eps : List Endpoint) (method : String) (u : Url) (a : Answer) : Bool :=
   match a.pol with
   | none => true
-  | some _ => eps.any fun e => soundFor method u a e && paramsOk e.parts u a.params
+  | some _ => eps.any fun e => soundFor eps method u a e && paramsOk e.parts u a.params
 
 def normOk (eps : List Endpoint) (method : String) (u : Url) (a : Answer) : Bool :=
   match a.pol with
   | none => true
-  | some _ => eps.any fun e => soundFor method u a e && a.normParts == e.parts
+  | some _ => eps.any fun e => soundFor eps method u a e && a.normParts == e.parts
 
 /-- (D) the remedy that answered through the dispatcher is an enabled global one, or an enabled remedy of an
     endpoint declared for this method whose pattern matches the URL. -/
@@ -186,22 +192,26 @@ def reqOk (eps : List Endpoint) (g : Globals) (method : String) (u : Url) (a : A
 
 /-! ### order independence, per case -/
 
+/-- Two answers to one request under two declaration orders agree: same policy or none, the same remedies and
+    diagnoses (as multisets: duplicated declarations run "in the order they are written"), same normalised
+    URL and parameters. -/
 def sameAnswer (a b : Answer) : Bool :=
-  a.pol == b.pol && a.rem == b.rem && a.diag == b.diag && a.norm == b.norm &&
-  a.params.all (fun kv => b.params.contains kv) && b.params.all (fun kv => a.params.contains kv)
+  a.hasValue == b.hasValue && a.pol.isSome == b.pol.isSome && a.rem.isPerm b.rem && a.diag.isPerm b.diag &&
+  a.grem == b.grem && a.gdiag == b.gdiag && a.sd == b.sd && a.normParts == b.normParts && a.params == b.params
 
-/-- Requests of `r2` get the answers they got in `r1` (both rounds built successfully). -/
+/-- Both orders are accepted, or both rejected. -/
+def statusAgree (r1 r2 : Round) : Bool := (r1.built == "ok") == (r2.built == "ok")
+
+/-- Requests of `r2` get the answers they got in `r1` (when both rounds built). -/
 def roundsAgree (r1 r2 : Round) : Bool :=
-  (r1.built == "ok") == (r2.built == "ok") &&
-  (r1.built != "ok" ||
+  r1.built != "ok" || r2.built != "ok" ||
     r2.reqs.all fun q2 => r1.reqs.all fun q1 =>
-      !(q1.method == q2.method && q1.parts == q2.parts) || sameAnswer q1.ans q2.ans)
+      !(q1.method == q2.method && q1.parts == q2.parts) || sameAnswer q1.ans q2.ans
 
 /-! ### verdicts (used by the judge) -/
 
 def classifyReq (eps : List Endpoint) (u : Url) : String :=
-  if crossMatchEarlier eps then "F13a"
-  else if boundaryMix eps u then "F13c"
+  if boundaryMix eps u then "F13c"
   else if emptySegment u then "F13d"
   else "-"
 
@@ -229,17 +239,18 @@ def dispVerdicts (g : Globals) (r : Round) : List Verdict :=
     else some ⟨classifyReq r.eps d.parts, s!"dispatcher-applied-unentitled-remedy {d.method} {d.url} first={d.first}"⟩
 
 def classifyOrder (eps : List Endpoint) : String :=
-  if crossMatch eps then "F13a"
-  else if cfgBoundaryMix eps then "F13c"
-  else if dupKeys eps then "F13e"
+  if cfgBoundaryMix eps then "F13c"
+  else if starQuirk eps then "F13f"
   else "-"
 
 def orderVerdicts : List Round → List Verdict
   | [] => []
   | r1 :: rest =>
-    (rest.filterMap fun r2 =>
-      if roundsAgree r1 r2 then none
-      else some ⟨classifyOrder r1.eps, s!"order-dependent built={r1.built}/{r2.built}"⟩) ++ orderVerdicts rest
+    (rest.flatMap fun r2 =>
+      (if statusAgree r1 r2 then [] else
+        [⟨(if crossMatch r1.eps then "F13g" else "-"), s!"acceptance-order-dependent built={r1.built}/{r2.built}"⟩]) ++
+      (if roundsAgree r1 r2 then [] else
+        [⟨classifyOrder r1.eps, "order-dependent"⟩])) ++ orderVerdicts rest
 
 def caseVerdicts (g : Globals) (rounds : List Round) : List Verdict :=
   (rounds.flatMap (reqVerdicts g)) ++ (rounds.flatMap (dispVerdicts g)) ++ orderVerdicts rounds
